@@ -34,7 +34,7 @@ func maxK(a, b int) int {
 	return b
 }
 
-const shiftCap = 100000 // generator never exceeds this; larger counts are not evaluated by anyone
+const shiftCap = 1023 - 1 + 52 // go/types bound on constant shift counts (and gomacro after fix C04-6)
 
 func truncQuo(x, y *big.Int) *big.Int { return new(big.Int).Quo(x, y) }
 func truncRem(x, y *big.Int) *big.Int { return new(big.Int).Rem(x, y) }
